@@ -1038,6 +1038,34 @@ func c18Context(c *Ctx) {
 		}
 		c.Sites["C18-R12#whole-text-trims"] = n
 		c.ob("C18-R12", fmtPkg+"#whole-text-trims-examined", token.NoPos, true, "")
+		// the per-line trim of the canonicaliser takes a carriage return off the end of a line: CRLF normalisation
+		// consumes one CR per line feed, so `\r\r\n` (or a bare CR at the end of the file) leaves a CR right before the
+		// line feed the formatter writes - a new CRLF that the next run rewrites
+		if cs := c.fn(fmtPkg, "CanonicalizeSource"); cs != nil {
+			k := 0
+			eachInstr(cs, func(_ *ssa.BasicBlock, _ int, ins ssa.Instruction) {
+				cl, ok := ins.(*ssa.Call)
+				if !ok || len(cl.Call.Args) < 2 {
+					return
+				}
+				switch callName(cl) {
+				case "strings.Trim", "strings.TrimRight":
+				default:
+					return
+				}
+				// a line: an element of the split text
+				isLine := derivesFrom(cl.Call.Args[0], func(v ssa.Value) bool {
+					c2, ok := v.(*ssa.Call)
+					return ok && (callName(c2) == "strings.Split" || callName(c2) == "strings.SplitAfter")
+				})
+				cut, isK := constString(cl.Call.Args[1])
+				if !isLine || !isK {
+					return
+				}
+				k++
+				c.ob("C18-R12", fnKey(cs)+"#line-trim-takes-the-carriage-return-"+itoa(k), cl.Pos(), strings.Contains(cut, "\r"), "the per-line trim removes "+strconv.Quote(cut)+" but not a carriage return: a CR left at the end of a line (CR-CR-LF endings, a bare CR at the end of the file) sits before the line feed the formatter writes, the output contains a CRLF again, and the next run changes it - fmt is not idempotent")
+			})
+		}
 	}
 
 	// ---- R9 what expansion rewrites at the start of a line, compaction rewrites back at the start of a line
